@@ -223,11 +223,11 @@ def inductive(tier):
 
 def check(prop, tier, seed):
     suites = [s for s in PROP_SUITES[prop] if s in SUITES[tier]]
-    out = [run_suite(s, tier, seed) for s in suites]
+    thunks = [(lambda s=s: run_suite(s, tier, seed)) for s in suites]
     if prop in ("C01", "C17"):
-        out.append(inductive(tier))
+        thunks.append(lambda: inductive(tier))
     if prop == "C01":
         # creation during deserialisation: the save/load traces charge reused handles to C01
         from . import saveload
-        out += saveload.check("C01", tier, seed)
-    return out
+        thunks.append(lambda: saveload.check("C01", tier, seed))
+    return C.run_until_violation(prop, thunks)
